@@ -11,11 +11,13 @@ import (
 	"bytes"
 	"context"
 	"fmt"
+	"os"
 	"runtime"
 	"sync"
 	"time"
 
 	"github.com/tetratelabs/wazero"
+	"github.com/tetratelabs/wazero/api"
 	"github.com/tetratelabs/wazero/imports/wasi_snapshot_preview1"
 	"github.com/tetratelabs/wazero/verifharness/hx"
 	"github.com/tetratelabs/wazero/verifharness/wb"
@@ -105,6 +107,80 @@ func slowWriterStage() {
 			} else {
 				rep.Count("slow-writer:ok")
 			}
+		}
+	}
+}
+
+// sharedHostFileStage: the SAME host file handed to several instances as their stdout (a log file opened by the embedder)
+// stays the embedder's: closing one instance does not close it for the others, nor for the embedder.  (Consoles, pipes and
+// in-memory writers are covered by the scenarios; a regular *os.File with a descriptor above 2 is the case here.)
+func sharedHostFileStage() {
+	ctx := context.Background()
+	m := wb.New()
+	fw := m.ImportFunc("wasi_snapshot_preview1", "fd_write", []byte{wb.I32, wb.I32, wb.I32, wb.I32}, []byte{wb.I32})
+	m.Memory(1, nil, false, "memory")
+	m.AddFunc(wb.Func{Results: []byte{wb.I32}, Export: "print", Body: wb.Cat(wb.I32Const(1), wb.I32Const(64), wb.I32Const(1), wb.I32Const(8), wb.Call(fw))})
+	bin := m.Bytes()
+	for _, engine := range []string{"interpreter", "compiler"} {
+		f, err := os.CreateTemp(*hx.Work, "c11-log-*.txt")
+		if err != nil {
+			hx.Fatal("shared-host-file stage: %v", err)
+		}
+		rt := wazero.NewRuntimeWithConfig(ctx, rtConfig(engine))
+		if _, err := wasi_snapshot_preview1.Instantiate(ctx, rt); err != nil {
+			hx.Fatal("shared-host-file stage: %v", err)
+		}
+		cm, err := rt.CompileModule(ctx, bin)
+		if err != nil {
+			hx.Fatal("shared-host-file stage: %v", err)
+		}
+		var trace []string
+		inst := func(name string) api.Module {
+			mod, err := rt.InstantiateModule(ctx, cm, wazero.NewModuleConfig().WithName(name).WithStdout(f).WithStderr(f))
+			if err != nil {
+				trace = append(trace, "instantiate "+name+": "+err.Error())
+				return nil
+			}
+			mod.Memory().Write(1024, []byte(name+"\n"))
+			mod.Memory().WriteUint32Le(64, 1024)
+			mod.Memory().WriteUint32Le(68, uint32(len(name)+1))
+			return mod
+		}
+		pr := func(mod api.Module) {
+			if mod == nil {
+				return
+			}
+			res, err := mod.ExportedFunction("print").Call(ctx)
+			if err != nil {
+				trace = append(trace, mod.Name()+": error "+err.Error())
+			} else {
+				trace = append(trace, fmt.Sprintf("%s: errno %d", mod.Name(), uint32(res[0])))
+			}
+		}
+		a, b := inst("a"), inst("b")
+		pr(a)
+		pr(b)
+		a.Close(ctx)
+		pr(b)
+		c := inst("c")
+		pr(c)
+		_, werr := f.WriteString("host\n")
+		trace = append(trace, fmt.Sprintf("embedder write: %v", werr))
+		rt.Close(ctx)
+		_, werr = f.WriteString("host again\n")
+		trace = append(trace, fmt.Sprintf("embedder write after Runtime.Close: %v", werr))
+		content, _ := os.ReadFile(f.Name())
+		f.Close()
+		os.Remove(f.Name())
+		want := []string{"a: errno 0", "b: errno 0", "b: errno 0", "c: errno 0", "embedder write: <nil>", "embedder write after Runtime.Close: <nil>"}
+		rep.Case("shared-host-file/" + engine)
+		if fmt.Sprint(trace) != fmt.Sprint(want) || string(content) != "a\nb\nb\nc\nhost\nhost again\n" {
+			rep.Violate(hx.Violation{Kind: "impl-violation", Signature: "C11:closing-one-instance-closes-a-host-file-shared-with-others:" + engine,
+				What:     fmt.Sprintf("%s: one *os.File (a log file) is the stdout of instances a, b and c; a is closed, then b and c print and the embedder writes: %v; file content %q", engine, trace, content),
+				Input:    map[string]any{"stage": "shared host file", "engine": engine},
+				Expected: fmt.Sprint(want), Actual: fmt.Sprint(trace)})
+		} else {
+			rep.Count("shared-host-file:ok")
 		}
 	}
 }
